@@ -88,7 +88,7 @@ class World:
         if not fault:
             return None
         if fault['kind'] == 'intr':
-            return InterruptAt(fault['at_call'])
+            return InterruptAt(fault['at_call'], genmodule=bool(fault.get('genmodule')))
         if fault['kind'] == 'io':
             return SourceIOFault(fault.get('target', 'src_write'), fault.get('nth', 1), fault.get('errno', 'ENOSPC'),
                                  fault.get('short', False))
